@@ -221,3 +221,197 @@ pub fn nested_objects(map: &Beatmap) -> Vec<Option<(f64, Vec<(u8, f64)>)>> {
         })
         .collect()
 }
+
+/// One nested slider object as the conversion probe reports it.
+#[derive(Copy, Clone, Debug, PartialEq)]
+pub struct ConvNested {
+    /// 0: repeat, 1: tail, 2: tick
+    pub kind: u8,
+    pub pos: rosu_map::util::Pos,
+    pub start_time: f64,
+}
+
+/// One `OsuObject` as the conversion probe reports it.
+#[derive(Clone, Debug, PartialEq)]
+pub struct ConvObject {
+    /// 0: circle, 1: slider, 2: spinner
+    pub kind: u8,
+    pub pos: rosu_map::util::Pos,
+    pub start_time: f64,
+    pub stack_height: i32,
+    pub stack_offset: rosu_map::util::Pos,
+    /// spinner duration (0 otherwise)
+    pub duration: f64,
+    pub end_time: f64,
+    pub lazy_end_pos: rosu_map::util::Pos,
+    pub lazy_travel_dist: f32,
+    pub lazy_travel_time: f64,
+    pub nested: Vec<ConvNested>,
+}
+
+/// Inputs, settings and outputs of `convert_objects` followed by `compute_slider_cursor_pos`.
+#[derive(Clone, Debug)]
+pub struct ConvProbe {
+    /// the objects as `OsuObject::new` builds them
+    pub raw: Vec<ConvObject>,
+    /// the objects after `convert_objects` and `compute_slider_cursor_pos`
+    pub out: Vec<ConvObject>,
+    /// 0: none, 1: vertical, 2: horizontal, 3: both
+    pub reflection: u8,
+    pub take: usize,
+    pub cs: f64,
+    pub ar_window: f64,
+    pub clock_rate: f64,
+    pub time_preempt: f64,
+    pub scale: f32,
+    pub radius: f64,
+    pub factor: f32,
+    /// max_combo, n_circles, n_sliders, n_large_ticks, n_spinners
+    pub counts: [u32; 5],
+}
+
+fn conv_object(h: &OsuObject) -> ConvObject {
+    let mut o = ConvObject {
+        kind: 0,
+        pos: h.pos,
+        start_time: h.start_time,
+        stack_height: h.stack_height,
+        stack_offset: h.stack_offset,
+        duration: 0.0,
+        end_time: h.end_time(),
+        lazy_end_pos: rosu_map::util::Pos::default(),
+        lazy_travel_dist: 0.0,
+        lazy_travel_time: 0.0,
+        nested: Vec::new(),
+    };
+
+    match h.kind {
+        OsuObjectKind::Circle => {}
+        OsuObjectKind::Slider(ref slider) => {
+            o.kind = 1;
+            o.lazy_end_pos = slider.lazy_end_pos;
+            o.lazy_travel_dist = slider.lazy_travel_dist;
+            o.lazy_travel_time = slider.lazy_travel_time;
+
+            o.nested = slider
+                .nested_objects
+                .iter()
+                .map(|n| ConvNested {
+                    kind: if n.is_repeat() {
+                        0
+                    } else if n.is_tick() {
+                        2
+                    } else {
+                        1
+                    },
+                    pos: n.pos,
+                    start_time: n.start_time,
+                })
+                .collect();
+        }
+        OsuObjectKind::Spinner(ref spinner) => {
+            o.kind = 2;
+            o.duration = spinner.duration;
+        }
+    }
+
+    o
+}
+
+/// Runs `OsuObject::new` on every object of an (already converted) osu! map, then the real
+/// `convert_objects` with the settings `OsuDifficultySetup::new` derives from `difficulty`, then
+/// `compute_slider_cursor_pos` on every object, and reports all three stages.
+pub fn conv_probe(difficulty: &Difficulty, map: &Beatmap) -> ConvProbe {
+    use std::pin::Pin;
+
+    use rosu_map::section::hit_objects::CurveBuffers;
+
+    use crate::model::mods::Reflection;
+
+    let clock_rate = difficulty.get_clock_rate();
+    let map_attrs = map.attributes().difficulty(difficulty).build();
+    let scaling_factor = ScalingFactor::new(map_attrs.cs);
+    let time_preempt = f64::from((map_attrs.hit_windows.ar * clock_rate) as f32);
+    let take = difficulty.get_passed_objects();
+    let reflection = difficulty.get_mods().reflection();
+
+    let mut curve_bufs = CurveBuffers::default();
+    let mut ticks_buf = Vec::new();
+
+    let raw = map
+        .hit_objects
+        .iter()
+        .map(|h| conv_object(&OsuObject::new(h, map, &mut curve_bufs, &mut ticks_buf)))
+        .collect();
+
+    let reflection_tag = match reflection {
+        Reflection::None => 0,
+        Reflection::Vertical => 1,
+        Reflection::Horizontal => 2,
+        Reflection::Both => 3,
+    };
+
+    let mut attrs = OsuDifficultyAttributes::default();
+
+    let mut objects = convert_objects(
+        map,
+        &scaling_factor,
+        reflection,
+        time_preempt,
+        take,
+        &mut attrs,
+    );
+
+    for h in objects.iter_mut() {
+        super::difficulty::verif_compute_slider_cursor_pos(Pin::new(h), scaling_factor.radius);
+    }
+
+    ConvProbe {
+        raw,
+        out: objects.iter().map(conv_object).collect(),
+        reflection: reflection_tag,
+        take,
+        cs: map_attrs.cs,
+        ar_window: map_attrs.hit_windows.ar,
+        clock_rate,
+        time_preempt,
+        scale: scaling_factor.scale,
+        radius: scaling_factor.radius,
+        factor: scaling_factor.factor,
+        counts: [
+            attrs.max_combo,
+            attrs.n_circles,
+            attrs.n_sliders,
+            attrs.n_large_ticks,
+            attrs.n_spinners,
+        ],
+    }
+}
+
+/// `OsuSlider::lazy_travel_time` on a synthetic nested-object list `(kind, start_time)` (kind 0:
+/// repeat, 1: tail, 2: tick): the travel time and the order of the nested objects afterwards, as
+/// indices into the input.
+pub fn lazy_travel_time_probe(start_time: f64, duration: f64, nested: &[(u8, f64)]) -> (f64, Vec<usize>) {
+    use std::borrow::Cow;
+
+    use super::object::{NestedSliderObject, NestedSliderObjectKind, OsuSlider};
+
+    let objects: Vec<NestedSliderObject> = nested
+        .iter()
+        .enumerate()
+        .map(|(i, (kind, time))| NestedSliderObject {
+            pos: rosu_map::util::Pos::new(i as f32, 0.0),
+            start_time: *time,
+            kind: match kind {
+                0 => NestedSliderObjectKind::Repeat,
+                1 => NestedSliderObjectKind::Tail,
+                _ => NestedSliderObjectKind::Tick,
+            },
+        })
+        .collect();
+
+    let mut cow = Cow::Borrowed(objects.as_slice());
+    let time = OsuSlider::lazy_travel_time(start_time, duration, &mut cow);
+
+    (time, cow.iter().map(|n| n.pos.x as usize).collect())
+}
